@@ -472,3 +472,106 @@ def canon_locals(tree: ast.Module, path: str, table=None) -> ast.Module:
     else:
         pass
     return tree
+
+
+# ------------------------------------------------------------------------------------------------------------------------
+_PURE_VIEWS = {"np.flatnonzero", "numpy.flatnonzero", "len", "tuple"}
+
+
+def _dotted_name(n):
+    parts = []
+    while isinstance(n, ast.Attribute):
+        parts.append(n.attr)
+        n = n.value
+    if isinstance(n, ast.Name):
+        parts.append(n.id)
+        return ".".join(reversed(parts))
+    return None
+
+
+def inline_new_attr_aliases(tree: ast.Module, path: str, table=None) -> ast.Module:
+    """`x = P.a.b` at the top level of a function (P a parameter or `self`, x a local the reference tree does not know, bound once;
+    neither P nor any attribute path starting with `P.a` is rebound in the function) is an attribute cached in a local ("look it
+    up only once").  The name stands for the same object as the attribute path, so the path is substituted at the uses and the
+    binding dropped — the rules then see the code they know.  Locals of the reference tree are never touched."""
+    table = load_table() if table is None else table
+    ref_mod = table.get(path) or {}
+    for sc in build_scopes(tree):
+        fn = sc.node
+        ref_names = set(ref_mod.get(sc.qual, {})) - {"__params__"}
+        stores: dict[str, int] = {}
+        attr_stores = set()  # (root, first attribute) of every store/delete through an attribute path
+        for n in ast.walk(fn):
+            if isinstance(n, ast.Name) and isinstance(n.ctx, (ast.Store, ast.Del)):
+                stores[n.id] = stores.get(n.id, 0) + 1
+            elif isinstance(n, (ast.Attribute, ast.Subscript)) and isinstance(n.ctx, (ast.Store, ast.Del)):
+                chain = []
+                r = n
+                while isinstance(r, (ast.Attribute, ast.Subscript)):
+                    if isinstance(r, ast.Attribute):
+                        chain.append(r.attr)
+                    else:
+                        chain = []  # a store *into* the object `P.a[...]`: the object P.a stays the same
+                    r = r.value
+                if isinstance(r, ast.Name) and chain and isinstance(n, ast.Attribute):
+                    attr_stores.add((r.id, chain[-1]))
+            elif isinstance(n, (ast.Global, ast.Nonlocal)):
+                for nm in n.names:
+                    stores[nm] = stores.get(nm, 0) + 2
+        cands = {}
+        for st in fn.body:
+            if not (isinstance(st, ast.Assign) and len(st.targets) == 1 and isinstance(st.targets[0], ast.Name)):
+                continue
+            x = st.targets[0].id
+            if x in ref_names or x in sc.params or stores.get(x) != 1:
+                continue
+            v = st.value
+            # a pure, argument-free view of the attribute: np.flatnonzero(P.a), len(P.a), tuple(P.a)
+            if isinstance(v, ast.Call) and not v.keywords and len(v.args) == 1 and _dotted_name(v.func) in _PURE_VIEWS:
+                v = v.args[0]
+            chain = []
+            r = v
+            while isinstance(r, ast.Attribute):
+                chain.append(r.attr)
+                r = r.value
+            if not chain or not isinstance(r, ast.Name):
+                continue
+            # the root is a parameter, or a local that is itself bound once, at the top level, to an attribute path of a parameter
+            if r.id in sc.params:
+                if stores.get(r.id, 0):
+                    continue
+            else:
+                rb = [t for t in fn.body if isinstance(t, ast.Assign) and len(t.targets) == 1 and isinstance(t.targets[0], ast.Name) and t.targets[0].id == r.id]
+                if stores.get(r.id) != 1 or len(rb) != 1 or fn.body.index(rb[0]) >= fn.body.index(st):
+                    continue
+                rv = rb[0].value
+                while isinstance(rv, ast.Attribute):
+                    rv = rv.value
+                if not (isinstance(rb[0].value, ast.Attribute) and isinstance(rv, ast.Name) and rv.id in sc.params and not stores.get(rv.id, 0)):
+                    continue
+            if (r.id, chain[-1]) in attr_stores:
+                continue
+            cands[x] = st
+        if not cands:
+            continue
+        # every read comes after the binding (top-level statement order; nested functions are called later)
+        order = {id(s): k for k, s in enumerate(fn.body)}
+        for x, st in list(cands.items()):
+            k0 = order[id(st)]
+            for k, s in enumerate(fn.body[: k0 + 1]):
+                tgt = s.value if s is st else s
+                if any(isinstance(n, ast.Name) and n.id == x and isinstance(n.ctx, ast.Load) for n in ast.walk(tgt)):
+                    cands.pop(x, None)
+                    break
+
+        class _R(ast.NodeTransformer):
+            def visit_Name(self, n):
+                if isinstance(n.ctx, ast.Load) and n.id in cands:
+                    return copy.deepcopy(cands[n.id].value)
+                return n
+
+        if cands:
+            drop = {id(s) for s in cands.values()}
+            fn.body = [_R().visit(s) for s in fn.body if id(s) not in drop] or [ast.Pass()]
+    ast.fix_missing_locations(tree)
+    return tree
